@@ -257,7 +257,10 @@ def gen_case(rng: random.Random):
                 tries += 1
             wused.add((wchain, num))
             wnum = (wchain, num)
-            body.append(f"HETATM{serial:5d}  O   {wname} {wchain}{num:4d}    {x:8.3f}{y:8.3f}{z:8.3f}  1.00 20.00           O  ")
+            wrec = rng.choice(["HETATM", "HETATM", "ATOM  "])
+            if wrec != "HETATM":
+                feats.add("water-as-ATOM-record")
+            body.append(f"{wrec}{serial:5d}  O   {wname} {wchain}{num:4d}    {x:8.3f}{y:8.3f}{z:8.3f}  1.00 20.00           O  ")
             serial += 1
         feats.add("water")
         if serial > 10000:
